@@ -36,8 +36,14 @@ def run_property(pid: str, repo_path: str, tier: str, write_evidence: bool = Tru
             mod.run_thorough(ctx)
         if tier == "thorough" and selftest and not ctx.errors:
             from wzsa import selftest as st
+            from wzsa.report import has_new_violations
 
-            st.run(ctx, pid, repo_path)
+            if has_new_violations(ctx):
+                # the tree itself violates a rule: report that; validating the checker against a tree under
+                # suspicion would only turn the violation into self-validation noise
+                ctx.note("self-validation skipped: the analysed tree has unlisted violations")
+            else:
+                st.run(ctx, pid, repo_path)
         return finish(ctx, mod.LEVEL_TEXT, mod.TRUSTED, mod.ASSUMPTIONS, write_evidence)
     except AnalysisError as e:
         print(f"ANALYSIS-ERROR property={pid} {type(e).__name__}: {e}")
